@@ -562,6 +562,17 @@ func c16R2(c *Ctx, rule string) {
 		for _, s := range c.P.CallsIn(fn, engine.Is("sendRPC")) {
 			c.RequireAt(r, rule, "InstallSnapshot:dedicated-connection-released", s.Instr, "the connection used for the stream is released on every path (deferred right after it was obtained), never returned to the pool", func(v engine.View) bool { return v.Seen("deferRelease") && v.F("connErr2") })
 		}
+		// a deadline, when one is set, grows with the announced size
+		nDl := 0
+		for _, s := range c.P.CallsIn(fn, engine.Is("iface:net.Conn.SetDeadline")) {
+			nDl++
+			d := c.P.Arg(s.Instr, 0)
+			ok := strings.Contains(d, "p3.Size") && strings.Contains(d, "recv.TimeoutScale")
+			c.Check(rule, "InstallSnapshot:deadline-scales-with-size", c.P.InstrPos(s.Instr), "the deadline for the whole exchange is derived from args.Size / TimeoutScale (never the flat RPC timeout alone), so a large snapshot is not cut off mid-stream on a healthy connection", ok, "deadline "+d, 1)
+		}
+		if nDl == 0 {
+			c.Ok(rule, "InstallSnapshot:deadline-scales-with-size", c.P.Pos(fn.Pos()), "no deadline is set at all", "no SetDeadline call", 1)
+		}
 		c.Check(rule, "InstallSnapshot:never-pooled", c.P.Pos(fn.Pos()), "InstallSnapshot never calls returnConn", len(c.P.CallsIn(fn, engine.Is("(*NetworkTransport).returnConn"))) == 0, "no returnConn", 1)
 	}
 }
